@@ -174,6 +174,105 @@ impl<'a> Gen<'a> {
     }
 }
 
+
+/// Deterministic boundary family (identical for every seed): takes of exactly / one unit below /
+/// one unit above what the worktop holds, zero and negative takes, non-fungible takes by ids and by
+/// amount (all, subset, missing, empty, after an order-changing removal), assertions exactly at the
+/// held amount, every way of ending a transaction with something left, every reuse of a consumed
+/// bucket / proof name.
+fn boundary_cases() -> Vec<(&'static str, Vec<Op>)> {
+    use Op::*;
+    let w = 10 * UNIT;
+    let mut v: Vec<(&'static str, Vec<Op>)> = Vec::new();
+    for (r, unit, total) in [(0usize, 1i128, w), (1usize, CENT, w)] {
+        for a in [total, total - unit, total + unit, 0, -unit, unit, total - 1, total + 1] {
+            v.push(("bnd_take", vec![Withdraw(r, total), TakeFromWorktop(r, a), Deposit(0), DepositBatch]));
+            v.push(("bnd_assert", vec![Withdraw(r, total), AssertContains(r, a), DepositBatch]));
+        }
+        v.push(("bnd_take", vec![Withdraw(r, total), TakeFromWorktop(r, total), TakeFromWorktop(r, unit)]));
+        v.push(("bnd_take", vec![Withdraw(r, total), TakeFromWorktop(r, total), TakeFromWorktop(r, 0), ReturnToWorktop(1), Deposit(0)]));
+        v.push(("bnd_take", vec![Withdraw(r, total), TakeFromWorktop(r, total - unit), TakeFromWorktop(r, unit), AssertContains(r, 0), Deposit(0), Deposit(1)]));
+        v.push(("bnd_take", vec![Withdraw(r, total), TakeFromWorktop(r, total - unit), TakeFromWorktop(r, 2 * unit)]));
+        v.push(("bnd_take", vec![Withdraw(r, total), Withdraw(r, total), TakeFromWorktop(r, 2 * total), Deposit(0)]));
+        v.push(("bnd_take", vec![Withdraw(r, total), TakeAllFromWorktop(r), TakeAllFromWorktop(r), ReturnToWorktop(1), ReturnToWorktop(0), TakeFromWorktop(r, total), Deposit(2)]));
+        v.push(("bnd_take", vec![Withdraw(r, total), TakeFromWorktop(r, total), BucketProofAll(0), ReturnToWorktop(0), TakeFromWorktop(r, total), DropNamedProofs, Deposit(1)]));
+        v.push(("bnd_take", vec![Withdraw(r, total), TakeFromWorktop(r, total), BucketProofAmount(0, unit), ReturnToWorktop(0), TakeFromWorktop(r, total - unit), TakeFromWorktop(r, unit), DropNamedProofs, Deposit(1), Deposit(2)]));
+        v.push(("bnd_take", vec![TakeFromWorktop(r, unit)]));
+        v.push(("bnd_take", vec![TakeFromWorktop(r, 0)]));
+        v.push(("bnd_take", vec![TakeFromWorktop(r, 0), ReturnToWorktop(0)]));
+        v.push(("bnd_take", vec![TakeAllFromWorktop(r), Deposit(0)]));
+        v.push(("bnd_take", vec![TakeAllFromWorktop(r), BurnBucket(0)]));
+        v.push(("bnd_assert", vec![AssertContains(r, 0)]));
+        v.push(("bnd_assert", vec![AssertContains(r, unit)]));
+        v.push(("bnd_assert", vec![AssertContainsAny(r)]));
+        v.push(("bnd_assert", vec![Withdraw(r, unit), AssertContainsAny(r), DepositBatch]));
+        v.push(("bnd_assert", vec![Withdraw(r, total), TakeFromWorktop(r, total), AssertContainsAny(r)]));
+        v.push(("bnd_assert", vec![Withdraw(r, total), TakeFromWorktop(r, total - unit), AssertContains(r, unit), AssertContains(r, 2 * unit)]));
+        v.push(("bnd_assert", vec![Withdraw(r, 0), AssertContainsAny(r)]));
+    }
+    // non-fungible takes
+    let nfw = WithdrawNF(2, vec![1, 2, 3]);
+    for ids in [vec![1, 2, 3], vec![3, 1, 2], vec![1, 2], vec![3], vec![1, 9], vec![9], vec![], vec![1, 2, 3, 4]] {
+        v.push(("bnd_nf_take", vec![nfw.clone(), TakeNFFromWorktop(2, ids.clone()), Deposit(0), DepositBatch]));
+        v.push(("bnd_nf_assert", vec![nfw.clone(), AssertContainsNF(2, ids.clone()), DepositBatch]));
+        v.push(("bnd_nf_take", vec![nfw.clone(), TakeNFFromWorktop(2, ids), BurnBucket(0), DepositBatch]));
+    }
+    for a in [3 * UNIT, 2 * UNIT, UNIT, 0, 4 * UNIT, UNIT / 2, 3 * UNIT + 1, -UNIT] {
+        v.push(("bnd_nf_take", vec![nfw.clone(), TakeFromWorktop(2, a), BurnBucket(0), DepositBatch]));
+        v.push(("bnd_nf_assert", vec![nfw.clone(), AssertContains(2, a), DepositBatch]));
+    }
+    // order of the id set after removals decides what a take-by-amount picks
+    v.push(("bnd_nf_take", vec![nfw.clone(), TakeNFFromWorktop(2, vec![1]), TakeFromWorktop(2, UNIT), BurnBucket(1), Deposit(0), DepositBatch]));
+    v.push(("bnd_nf_take", vec![WithdrawNF(2, vec![4, 1, 3, 2]), TakeNFFromWorktop(2, vec![1]), TakeFromWorktop(2, 2 * UNIT), BurnBucket(1), Deposit(0), DepositBatch]));
+    v.push(("bnd_nf_take", vec![nfw.clone(), TakeNFFromWorktop(2, vec![2]), ReturnToWorktop(0), TakeFromWorktop(2, 2 * UNIT), BurnBucket(1), DepositBatch]));
+    v.push(("bnd_nf_take", vec![nfw.clone(), WithdrawNF(2, vec![5]), TakeFromWorktop(2, 4 * UNIT), TakeNFFromWorktop(2, vec![5]), Deposit(0)]));
+    v.push(("bnd_nf_assert", vec![AssertContainsNF(2, vec![])]));
+    v.push(("bnd_nf_assert", vec![AssertContainsNF(2, vec![1])]));
+    v.push(("bnd_nf_assert", vec![AssertContainsAny(2)]));
+    v.push(("bnd_nf_assert", vec![nfw.clone(), TakeNFFromWorktop(2, vec![1, 2, 3]), AssertContainsNF(2, vec![1])]));
+    // endings and reuse of consumed names
+    let pre = vec![Withdraw(0, w), TakeFromWorktop(0, 4 * UNIT)];
+    let with = |extra: Vec<Op>| {
+        let mut o = pre.clone();
+        o.extend(extra);
+        o
+    };
+    v.push(("bnd_dispose", with(vec![])));
+    v.push(("bnd_dispose", with(vec![DepositBatch])));
+    v.push(("bnd_dispose", with(vec![Deposit(0)])));
+    v.push(("bnd_dispose", with(vec![Deposit(0), DepositBatch])));
+    v.push(("bnd_dispose", with(vec![BurnBucket(0), DepositBatch])));
+    v.push(("bnd_dispose", with(vec![ReturnToWorktop(0), DepositBatch])));
+    v.push(("bnd_dispose", with(vec![ReturnToWorktop(0), AssertContains(0, w), AssertContains(0, w + 1)])));
+    v.push(("bnd_dispose", with(vec![Deposit(0), Deposit(0)])));
+    v.push(("bnd_dispose", with(vec![ReturnToWorktop(0), ReturnToWorktop(0)])));
+    v.push(("bnd_dispose", with(vec![BurnBucket(0), Deposit(0)])));
+    v.push(("bnd_dispose", with(vec![Deposit(0), BurnBucket(0)])));
+    v.push(("bnd_dispose", with(vec![Deposit(0), BucketProofAll(0)])));
+    v.push(("bnd_dispose", with(vec![Deposit(1)])));
+    v.push(("bnd_dispose", with(vec![DepositBatch, DepositBatch, Deposit(0)])));
+    v.push(("bnd_dispose", vec![DepositBatch]));
+    v.push(("bnd_dispose", vec![Withdraw(0, 0)]));
+    v.push(("bnd_dispose", vec![Withdraw(0, 1)]));
+    v.push(("bnd_dispose", vec![Withdraw(0, w), TakeFromWorktop(0, w)]));
+    v.push(("bnd_dispose", vec![Withdraw(0, w), TakeFromWorktop(0, w), TakeFromWorktop(0, 0), Deposit(0)]));
+    v.push(("bnd_dispose", vec![Withdraw(0, w), AcctBurn(0, w), DepositBatch]));
+    v.push(("bnd_dispose", vec![Withdraw(0, w), Withdraw(1, w), nfw.clone(), TakeAllFromWorktop(1), DepositBatch, BurnBucket(0)]));
+    v.push(("bnd_dispose", vec![Withdraw(0, w), Withdraw(1, w), nfw.clone(), DropAllProofs, DepositBatch]));
+    // proof names
+    v.push(("bnd_proof_names", vec![DropProof(0)]));
+    v.push(("bnd_proof_names", vec![CloneProof(0)]));
+    v.push(("bnd_proof_names", vec![PushAuthZone(0)]));
+    v.push(("bnd_proof_names", vec![PopAuthZone]));
+    v.push(("bnd_proof_names", vec![AcctProofAmount(0, UNIT), PopAuthZone, PopAuthZone]));
+    v.push(("bnd_proof_names", vec![AcctProofAmount(0, UNIT), PopAuthZone, DropProof(0), DropProof(0)]));
+    v.push(("bnd_proof_names", vec![AcctProofAmount(0, UNIT), PopAuthZone, PushAuthZone(0), CloneProof(0)]));
+    v.push(("bnd_proof_names", vec![AcctProofAmount(0, UNIT), PopAuthZone, PushAuthZone(0), PopAuthZone, DropProof(1)]));
+    v.push(("bnd_proof_names", vec![AcctProofAmount(0, UNIT), PopAuthZone, CloneProof(0), DropNamedProofs, DropProof(1)]));
+    v.push(("bnd_proof_names", vec![AcctProofAmount(0, UNIT), AcctProofNF(2, vec![1])]));
+    v
+}
+
 fn gen_case(rng: &mut Rng, init_fung: [i128; 2], init_nf: &[u64]) -> Vec<Op> {
     let len = if rng.chance(1, 8) { rng.range(1, 5) } else { rng.range(6, 30) } as usize;
     let tidy = rng.below(10);
@@ -243,9 +342,19 @@ fn main() {
     let mut sim = Sim::new();
     let (init_fung, init_nf) = (sim.init_fung, sim.init_nf.clone());
     let init_coq = format!("({}, {}, {})", coq_z(init_fung[0]), coq_z(init_fung[1]), coq_ids(&init_nf));
-    for i in 0..args.cases {
+    let bnd = boundary_cases();
+    for i in 0..args.cases.max(bnd.len()) {
         let mut rng = root.fork(i as u64);
-        let ops = gen_case(&mut rng, init_fung, &init_nf);
+        let ops = match bnd.get(i) {
+            Some((class, ops)) => {
+                report.count(class);
+                ops.clone()
+            }
+            None => {
+                report.count("random_cases");
+                gen_case(&mut rng, init_fung, &init_nf)
+            }
+        };
         let res = sim.run_case(&ops);
         let canon = op_json(&ops).join(";");
         let takes = ops.iter().filter(|o| matches!(o, Op::TakeFromWorktop(..) | Op::TakeNFFromWorktop(..) | Op::TakeAllFromWorktop(..))).count();
@@ -327,6 +436,13 @@ fn main() {
     report.floor("tx_failure", (args.cases as u64) / 10);
     report.floor("takes", args.cases as u64);
     report.floor("conservation_checked", (args.cases as u64) / 6);
+    let mut per_class: std::collections::BTreeMap<&str, u64> = Default::default();
+    for (c, _) in &bnd {
+        *per_class.entry(*c).or_insert(0) += 1;
+    }
+    for (c, n) in per_class {
+        report.floor(c, n);
+    }
     cw.write(&args.out, args.shards).unwrap();
     report.write(&args.out).unwrap();
 }
